@@ -136,7 +136,11 @@ func Number() *rapid.Generator[cty.Value] {
 var AttrNames = []string{"a", "b", "c", "id", "name", "foo", "for", "in", "if", "null", "true", "false", "x-y", "k_1"}
 
 // KeyPool is the pool of map keys / non-identifier object keys.
-var KeyPool = []string{"a", "b", "c", "k", "for", "in", "if", "null", "true", "0", "1", "01", "-1", "", " ", "a b", "a.b", "x-y", "\u00e9", "${", "%{", "\"", "\n", "1.5", "\u65e5\u672c"}
+var KeyPool = []string{"a", "b", "c", "k", "for", "in", "if", "null", "true", "0", "1", "01", "-1", "", " ", "a b", "a.b", "x-y", "\u00e9", "${", "%{", "\"", "\n", "1.5", "\u65e5\u672c",
+	// the boundary of "identifier": characters on which Unicode versions and category
+	// tables disagree (letters added after Unicode 9, Other_ID_Start/Continue, digits and
+	// marks in first position, letter-like numbers)
+	"\u1c93\u1c90", "\u0560x", "a\u1c90", "\U00010d20", "a\U0001e140", "\u2118", "a\u00b7b", "\u0663", "a\u0663", "\u00aa", "\u2170", "\u03a9", "_a", "a-", "-a", "9a", "a\u0301", "\u0301a", "\ua7af", "\U0001f600a"}
 
 // TypeOpts controls type generation.
 type TypeOpts struct {
